@@ -64,10 +64,16 @@ def c10(args, rng):
         vs.append((float(mp.e ** (-mp.mpf(x))), 'sweep'))
     for e in range(-1000, 1001, 7 if args.tier == 'quick' else 1):
         vs.append((2.0 ** e, 'pow2'))
+    # log-uniform in |x| = |ln v| from 1e-9 to 40, both signs: every decade of the series branch gets the same weight
+    for _ in range(n_sweep):
+        x = 10.0 ** rng.uniform(-9, 1.6) * rng.choice([-1.0, 1.0])
+        vs.append((float(mp.e ** (-mp.mpf(x))), 'logsweep'))
     cases, meta = [], []
     units = [[0, 1, 0, 0, 0, 0], [0, 0, 1, 0, 0, 0], [0, 0, 0, 0, 1, 0], [0, 0, 0, 0, 0, 1], [1, 0, 0, 0, 0, 1], [0, 1, -2, 3, -4, 120]]
     for v, cls in vs:
-        if rng.random() < 0.5:
+        if cls == 'logsweep' and rng.random() < 0.5:
+            nums = [0.0, 0.0, 0.0, 0.0, 0.0, rng.choice([1.0, -1.0, 120.0, rng.uniform(-10, 10)])]   # the tail term alone
+        elif rng.random() < 0.5:
             nums = [float(t) for t in rng.choice(units)]
         else:
             nums = [rng.choice([rng.uniform(-10, 10), float(rng.randint(-5, 5)), rng.uniform(-1, 1) * 10 ** rng.randint(-6, 6)]) for _ in range(6)]
@@ -94,7 +100,7 @@ def c10(args, rng):
             failures.append(mkfail(line, why))
     return dict(evaluations=len(cases) + 50, distinct_nontrivial=len(distinct), classes=classes, worst_relative_error=worst,
                 failures=failures[:20], samples=cases[:2],
-                rule="C10: every float within N ulps of v=1 and of both switch points, sweep of x in [-40,40], powers of two 2^-1000..2^1000; reference = 400-bit mpmath; tolerance 1e-12 * sum of term magnitudes")
+                rule="C10: every float within N ulps of v=1 and of both switch points, uniform sweep of x in [-40,40] and log-uniform sweep of |x| in [1e-9,40] (half of it on the tail term alone), powers of two 2^-1000..2^1000; reference = 400-bit mpmath; tolerance 1e-12 * sum of term magnitudes")
 
 def mkfail(line, why):
     return {"kind": "MONFAIL", "campaign": "oracle", "request": line, "shrunk_request": line, "shrunk_prefix": line, "shrunk_response": "MONFAIL " + why}
